@@ -5,13 +5,13 @@ budget=${1:-45}; only=${2:-S}
 cd "$(dirname "$0")/.."
 if ! git -C /repo diff --quiet; then echo "/repo has uncommitted changes" >&2; exit 2; fi
 rm -rf out/evidence.keep && cp -r evidence out/evidence.keep
-trap 'git -C /repo checkout -- . ; rm -rf evidence; mv out/evidence.keep evidence' EXIT
+trap 'git -C /repo checkout -- . ; git -C /repo clean -fdq -- x types api; rm -rf evidence; mv out/evidence.keep evidence' EXIT
 for d in seeded/${only}*/; do
   id=$(basename $d); prop=$(python3 -c "import json;print(json.load(open('$d/meta.json'))['property'])")
   git -C /repo apply --check "$PWD/$d/patch.diff" 2>/dev/null || { echo "$id $prop PATCH-DOES-NOT-APPLY"; continue; }
   git -C /repo apply "$PWD/$d/patch.diff"
   out=$(VERIF_BUDGET_S=$budget ./check.sh $prop quick 2>&1); rc=$?
-  git -C /repo checkout -- .
+  git -C /repo checkout -- . ; git -C /repo clean -fdq -- x types api
   first=$(echo "$out" | grep '^violation' | head -1 | cut -c1-160)
   echo "$id $prop rc=$rc $(echo "$out" | grep -c '^VIOLATION') VIOLATION lines | $first"
 done
